@@ -279,12 +279,13 @@ def sample(case):
     return c01.sample(case) if case['kind'] == 'prop' else case
 
 
-THEOREM_FILES = ['P_C16', 'P_C16_gen']
+THEOREM_FILES = ['P_C16', 'P_C16_gen', 'P_C02_norm']
 THEOREM_NEEDS = {'P_C16_gen': ['Equiv_loops']}
 RULE = ('Hermitian restricted / SSO Hamiltonians with |t|*L1(H) graded over {1e-3 .. 30}, accuracies {1e-4 .. 1e-15}, '
         'expansion limits {2 .. 60}, Taylor and Chebyshev (enclosing and tight spectral bounds): raise iff the control-flow '
         'model says so (cases within 1e-3 of the threshold excluded and counted), returned state = exact partial sum, and '
         'within 4*acc + exp(x)*1e-12 of exp(-iHt)psi; exact routes at |t| up to 7e4 and coefficients up to 1e6')
-NOT_PROVED = ['the scalar remainder bound of the series is a Coq theorem (C16_taylor_tail_bound); that ||H^k psi|| <= L1^k ||psi|| '
-              '(each operator string is a partial isometry) and the Bessel tail of the Chebyshev series are not; the accuracy '
-              'claim is checked numerically against the exact oracle']
+NOT_PROVED = ['the scalar remainder bound of the series (C16_taylor_tail_bound) and the l1 operator-norm step '
+              '|coeff (H^k psi) d| <= L1^k mass(psi) (P_C02_norm) are Coq theorems; the l2 form (each operator string is a partial '
+              'isometry) and the Bessel tail of the Chebyshev series are not; the accuracy claim is checked numerically against '
+              'the exact oracle']
